@@ -368,10 +368,12 @@ int scan_from_with(var input, int pos, const char* fmt, var args) {
     while (*fmt isnt '\0' and *fmt isnt '%') { fmt++; }
     
     if (start isnt fmt) {  
+      int off = 0;
       memcpy(fmt_buf, start, fmt - start);
       fmt_buf[fmt - start] = '\0';
-      format_from(input, pos, fmt_buf);
-      pos += (int)(fmt - start);
+      strcat(fmt_buf, "%n");
+      format_from(input, pos, fmt_buf, &off);
+      pos += off;
       continue;
     }
     
